@@ -104,6 +104,32 @@ def run(ctx):
                     ctx.report("operation %s on fresh objects gives different results on different runs (map iteration order): %s vs %s" % (op, f[:100], [a[:100] for a in alt]), "c11m:" + l + str(k),
                                dict(info, other_runs=alt), case=info)
                 break
+    # rare nondeterminism (allocator / map order with probability well below 1%): schemas with SEVERAL defects - a type referenced in several places but not added,
+    # rule violations in several types - built and checked 300 times in one process; every repetition must give the same result
+    rl = []
+    for _ in range(60 if quick else 1500):
+        k = rng.randint(2, 5)
+        g = [G.rand_type(rng, k, True) for _ in range(k)]
+        for i in range(1, k):
+            if rng.random() < 0.3:
+                g[i] = [("alias", rng.sample(list(range(k)) + [k + 1], min(k, rng.choice([2, 3]))))]
+        texts = [G.print_type(p)[0] for p in g]
+        rl.append(json.dumps({"schemas": [{"text": texts[0], "types": [[G.name(i), t] for i, t in enumerate(texts)]}], "docs": [], "enums": [], "regexes": [], "ops": [], "n": 300}))
+    rl.append(json.dumps({"schemas": [{"text": "{\n  \"a\": @x,\n  \"b\": @y\n}", "types": [["@x", "1 // {min: 5}"], ["@y", "\"s\" // {minLength: 9}"]]}], "docs": [], "enums": [], "regexes": [], "ops": [], "n": 300}))
+    if os.path.isdir(cdir):
+        for f in sorted(os.listdir(cdir)):
+            for c in json.load(open(os.path.join(cdir, f))):
+                rl.append(json.dumps(dict(c, ops=[], n=1000)))
+    nrep = 0
+    for l, o in zip(rl, vc.impl_parallel(["repeatcheck"], rl, shards=16)):
+        r = json.loads(o)
+        ctx.evaluations += 1
+        nrep += 1
+        if len(r) != 1 and len(ctx.violations) < 40:
+            c = json.loads(l)
+            ctx.report("the same schema built and checked %d times gives %d different results: %s; types %r" % (c["n"], len(r), [x[:60] for x in r][:3], [t[1][:60] for t in c["schemas"][0]["types"]][:4]),
+                       "c11rep:" + l, {"case": c, "distinct_results": r}, case={"op": ["repeatcheck"]})
+    ctx.extra["repeat_cases"] = nrep
     ctx.extra["histories"] = len(cases)
     ctx.extra["op_histogram"] = {}
     for c in cases:
